@@ -145,6 +145,48 @@ Definition tk_filtered_dir : list stm :=
 Definition tk_register : list stm :=
   [SIf [SEv (Rd "search_tags"); SIf [SEv (Rd "search_tags"); SIf [SEv (Rd "search_tags")] []] [SEv (Wr "search_tags")]] []; SIf [] []; SEv (Call "expand_path"); SLoop [SEv (Rd "entries"); SIf [SEv (Rd "entries")] [SEv (Call "get_source_id"); SEv (Wr "entries")]]].
 
+Definition tk_fs_add : list stm :=
+  [SIf [SEv (Call "restrict")] []; SEv (Call "register")].
+
+Definition tk_resolve_from_tag : list stm :=
+  [SEv (Rd "search_tags"); SLoop [SEv (Call "resolve_from_id"); SEv (Call "append")]; SExit].
+
+Definition tk_resolve_from_id : list stm :=
+  [SEv (Rd "simple"); SIf [SEv (Rd "simple"); SExit] []; SEv (Rd "sequence"); SExit].
+
+Definition tk_source_id_to_path : list stm :=
+  [STry [SEv (Rd "source_ids"); SExit] [("KeyError", [SEv (Rd "source_ids")])] [] []; SExit].
+
+Definition tk_collection_init : list stm :=
+  [SEv (Call "reset")].
+
+Definition tk_collection_reset : list stm :=
+  [SEv (Wr "by_path")].
+
+Definition tk_tm_init : list stm :=
+  [SEv (Call "event_new"); SEv (Call "event_clear"); SEv (Call "thread_new"); SEv (Wr "running")].
+
+Definition tk_tm_start : list stm :=
+  [SEv (Call "thread_start"); SEv (Wr "running")].
+
+Definition tk_tm_stop : list stm :=
+  [SEv (Rd "running"); SIf [SEv (Call "event_set"); SEv (Call "thread_join"); SEv (Wr "running")] []].
+
+Definition tk_kill_workers : list stm :=
+  [SEv (Call "active_children"); SLoop [SIf [SIf [SEv (Call "remember_worker")] []] []]; SEv (Call "getpid"); SEv (Call "ps_children"); SLoop [SIf [SEv (Call "getpid"); SExit] []; STry [SEv (Call "kill")] [("ProcessLookupError", [])] [] []]].
+
+Definition tk_cm_init : list stm :=
+  [SEv (Wr "search_catalog"); SEv (Wr "global_constraints"); SEv (Wr "global_restrictions")].
+
+Definition tk_fs_stats : list stm :=
+  [SEv (Rd "stats"); SExit].
+
+Definition tk_rse_init : list stm :=
+  [SEv (Wr "msg")].
+
+Definition tk_fse_init : list stm :=
+  [SEv (Wr "msg")].
+
 Definition tk_searchdefbase_init : list stm :=
   [SEv (Rd "arg_constraints"); SEv (Wr "constraints_attr"); SEv (Rd "id")].
 
